@@ -365,6 +365,12 @@ def run_extra(cx):
                     if match('(agg *Option::Some (0 (itervar (param stations))))', v) is not None:
                         g = [a for a, p in cx.guards(b, bi) if p and a[0] == 'lt']
                         ok = any(match('(lt (anyphi (loop)) (mul 2.0 (field radius (field ball (field circle (itervar (param stations)))))))', a) is not None for a in g)
+        if not ok:
+            from vpa import comp as CMPF
+            for af in CMPF.argmax_folds(cx, b):
+                if match('(param stations)', af['src']) is not None and af['init'] == ('const', 0.0) and match('(itervar (param stations))', af['item']) is not None and \
+                        match('(mul 2.0 (field radius (field ball (field circle (itervar (param stations))))))', af['value']) is not None:
+                    ok = True
         cx.ob('EXPR', 'find_tmax_circle', ok, 'the thickest station is a running maximum over ALL stations by diameter (replaced only under strictly larger)', where=b.file)
 
     # ---------------------------------------------------------------- units of two numeric stop / selection criteria
